@@ -180,6 +180,10 @@ func genNodeCase(seed uint64, tier, focus, variant string) *simk.Case {
 		c.Cfg["peers"] = np
 		ex.Bundles = ex.Bundles[:0]
 		nb := r.Range(3, 8)
+		latePast := 0
+		if rl := simk.NewRand(seed, "late"); rl.Bool(0.3) {
+			latePast = rl.Pick(1500, 4000, 9000, 30000, 70000, 100000)
+		}
 		for i := 0; i < nb; i++ {
 			sp := genSpec(r, i, np, focus, algo)
 			sp.Src, sp.Prev, sp.Seq, sp.HopLimit, sp.Unknown, sp.Spray, sp.Flags, sp.ReportTo = simNodeEID+"app", 0, 0, -1, nil, 0, 0, ""
@@ -198,6 +202,10 @@ func genNodeCase(seed uint64, tier, focus, variant string) *simk.Case {
 				sp.CT, sp.AgeMs = "zero", int64(r.Pick(0, 1, 500))
 			} else {
 				sp.CT, sp.AgeMs = "now", -1
+			}
+			if latePast > 0 && sp.CT == "now" {
+				// an application that stamped its bundles itself and hands them over late: same creation time, seconds old
+				sp.CT = fmt.Sprintf("past:%d", latePast)
 			}
 			ex.Bundles = append(ex.Bundles, sp)
 		}
